@@ -1,5 +1,6 @@
 import ZV.Model.C13
 import ZV.Model.C13Der
+import ZV.Model.C13Enc
 /-! line protocol for C13
 
   `c13 decide <outerOk> <status> <typeOk> <basicOk> <rtag> <rok> <ncerts> <c0ok> <vEResp> <vICert> <vIResp>
@@ -22,6 +23,9 @@ import ZV.Model.C13Der
                              ZV.Model.C13Der: `o:err` | `o:<status>,<type oid|->,<rest>,<body len> b:err` | `… b:<fields>`
   `c13 rq <hash> <nameHash> <keyHash> <serial>`   Request.Marshal, then ParseRequest of the bytes: `merr` | `<der> ok …` | `<der> err`
   `c13 rqd <hex>`            ParseRequest on given bytes
+  `c13 enc <ca> <mode> <keyKind> <reqAlgo> <status> <serial> <this> <next> <revAt> <reason> <hash> <exts n|e|oid/crit/hex+…> <nameHash> <keyHash>
+           <responderName> <sig> <cert|n>`   CreateResponse byte for byte (ZV.Model.C13Enc.createResponse, ProducedAt 2000-01-01T00:00:00Z):
+                             `err` | `<tbsResponseData hex> <response hex>`
   `c13 time <23|24> <hex>`   parseUTCTime / parseGeneralizedTime (strict): `ok <unix seconds>` | `err`
   output: `err` | `err-create` | `panic` |
           `ok <idx> <good|revoked|unknown> <serial> <this> <next> <revokedAt|-> <reason|-> <hash> <name|keyhash> <cert 0|1>`
@@ -234,6 +238,37 @@ def handleBytes (a : List String) : String :=
     | _, _, _, _, _, _, _ => "bad-op"
   | _ => "bad-op"
 
+def pOidDots (s : String) : Option (List Int) := (s.splitOn ".").mapM parseInt
+
+def pExt (s : String) : Option (List Int × Bool × Bytes) :=
+  match s.splitOn "/" with
+  | [o, c, v] =>
+    (match pOidDots o, pBool c, ofHex v with
+     | some o, some c, some v => some (o, c, v)
+     | _, _, _ => none)
+  | _ => none
+
+def pExts (s : String) : Option (Option (List (List Int × Bool × Bytes))) :=
+  if s == "n" then some none else if s == "e" then some (some [])
+  else ((s.splitOn "+").mapM pExt).map some
+
+def handleEnc (a : List String) : String :=
+  match a with
+  | [_, _, kk, rq, st, se, th, nx, ra, re, h, ex, nh, kh, rn, sg, ce] =>
+    match kk.toNat?, rq.toNat?, parseInt st, parseInt se, parseInt th, parseInt nx, parseInt ra, parseInt re, h.toNat?, pExts ex with
+    | some kk, some rq, some st, some se, some th, some nx, some ra, some re, some h, some ex =>
+      (match ofHex nh, ofHex kh, ofHex rn, ofHex sg, (if ce == "n" then some none else (ofHex ce).map some) with
+       | some nh, some kh, some rn, some sg, some ce =>
+         let t : RTemplate := { status := st, serial := se, thisUpdate := th, nextUpdate := nx, revokedAt := ra, reason := re,
+                                hash := h, exts := ex }
+         (match createResponse t nh kh rn 946684800 (kindOfNat kk) rq sg ce, tbsDER t nh kh rn 946684800 with
+          | .ok der, .ok tbs => toHex tbs ++ " " ++ toHex der
+          | .panic, _ => "panic"
+          | _, _ => "err")
+       | _, _, _, _, _ => "bad-op")
+    | _, _, _, _, _, _, _, _, _, _ => "bad-op"
+  | _ => "bad-op"
+
 def handle (args : List String) : String :=
   match args with
   | "decide" :: rest => handleDecide rest
@@ -243,6 +278,7 @@ def handle (args : List String) : String :=
   | ["der", h] => handleDer h
   | ["schema", n] => handleSchema n
   | "rq" :: rest => handleRq rest
+  | "enc" :: rest => handleEnc rest
   | ["rqd", h] =>
     (match ofHex h with
      | some der => showRes showReq (parseRequest der)
